@@ -262,9 +262,9 @@ def validate(wdir, cases, events, tag, chunks=None):
     execs = [(c["id"], [e for e in by.get(c["id"], []) if e["e"] in ("Obs", "Crash")]) for c in cases]
     if chunks is None:
         # a TLC process costs ~10 CPU-seconds before its first state: few large chunks beat many small ones (measured)
-        chunks = max(1, min(8, sum(len(x[1]) for x in execs) // 40000, len(execs)))
+        chunks = max(1, min(6, sum(len(x[1]) for x in execs) // 40000, len(execs)))
         chunks = max(chunks, min(4, len(execs)))
-    bad, totals, results = vlib.validate_traces("Config_Trace", "Config_Trace.cfg", execs, wdir, tag, chunks=chunks, timeout_s=3000, xmx="8g")
+    bad, totals, results = vlib.validate_traces("Config_Trace", "Config_Trace.cfg", execs, wdir, tag, chunks=chunks, timeout_s=3000, xmx="4g")
     tally = {}
     rows = 0
     for r in results:
@@ -312,7 +312,7 @@ def run(rep, tier, seed, replay):
         #         refuted with the formula named for it (non-vacuity); 2. generator: one history per transition of
         #         the bounded state graphs.  The TLC runs are independent: a small pool runs them side by side.
         ideal = [("inherit", 4), ("nest", 4), ("kinds", 3), ("bases", 4)] if quick else [("inherit", 5), ("nest", 5), ("kinds", 4), ("bases", 5)]
-        gens = [("inherit", 3), ("nest", 3), ("kinds", 3), ("bases", 3)] if quick else [("inherit", 4), ("nest", 4), ("kinds", 3), ("bases", 4)]
+        gens = [("inherit", 3), ("nest", 3), ("kinds", 3), ("bases", 3)] if quick else [("inherit", 4), ("nest", 4), ("kinds", 3), ("bases", 3)]
         jobs = [("ideal", prof, depth) for prof, depth in ideal] + [("gen", prof, depth) for prof, depth in gens] + [("dev",) + d for d in DEVIATIONS]
 
         def tlc_job(j):
@@ -374,15 +374,30 @@ def run(rep, tier, seed, replay):
                 "non-trivial = config text with >= 2 statements; distinct by rendered texts")
     rep.extra["distinct_nontrivial"] = len({"|".join(c["files"]) for c in cases if sum(len(f) for f in c["ops"]) >= 2})
     phase("%d cases rendered" % len(cases))
-    # ---- 4. drive the implementation
-    events = vlib.run_driver("config", [driver_case(c, force) for c in cases], wdir, kind="rel", timeout_s=CASE_TIMEOUT_S)
-    phase("driver done, %d events" % len(events))
-    # ---- 5. trace validation by TLC
-    execs, bad, totals, results, tally, rows = validate(wdir, cases, events, "c15")
-    for r in results:
-        rep.add_tlc(r)
-    phase("trace validation done, %d rows" % rows)
-    rep.traces = len(execs)
+    # ---- 4. drive the implementation, 5. trace validation by TLC - in batches (bounded memory)
+    BATCH = 10000
+    bad, tally, rows, ntraces = [], {}, 0, 0
+    totals = {"lines": 0, "ops": 0}
+    for b0 in range(0, len(cases), BATCH):
+        part = cases[b0:b0 + BATCH]
+        events = vlib.run_driver("config", [driver_case(c, force) for c in part], wdir, kind="rel", timeout_s=CASE_TIMEOUT_S, tag="drv%d" % (b0 // BATCH))
+        execs, bad1, totals1, results, tally1, rows1 = validate(wdir, part, events, "c15b%d" % (b0 // BATCH))
+        for r in results:
+            rep.add_tlc(r)
+        bad += bad1
+        rows += rows1
+        ntraces += len(execs)
+        for k in totals:
+            totals[k] += totals1[k]
+        for k, n in tally1.items():
+            tally[k] = tally.get(k, 0) + n
+        del events, execs
+        if b0 + BATCH < len(cases):      # keep the files of the last batch only
+            for fn in os.listdir(wdir):
+                if fn.startswith("drv%d." % (b0 // BATCH)) or fn.startswith("c15b%d." % (b0 // BATCH)):
+                    os.remove(os.path.join(wdir, fn))
+        phase("batch %d: %d cases driven and validated, %d rows so far" % (b0 // BATCH, len(part), rows))
+    rep.traces = ntraces
     rep.evaluations = rows + totals["ops"]
     rep.extra["trace_lines"] = totals["lines"]
     rep.extra["statements_explained_by_spec"] = totals["ops"]
